@@ -127,7 +127,7 @@ func lockstepObligations(w *World, fnName string, ct *Contract, rel relSpec, pro
 			}
 		}
 		o := &Obligation{Kind: kind, Func: fn.String(), Goal: goal, PC: "true", fx: fx, Pos: pos, Src: src, Comment: comment, Props: props}
-		o.Custom = w.prelude() + ctxText + "(assert (not " + goal + "))\n"
+		o.Custom = w.preludeFor(ctxText+goal) + ctxText + "(assert (not " + goal + "))\n"
 		obls = append(obls, o)
 	}
 	// Block-level agreement: every block with an effect is reached by both executions or by
